@@ -87,13 +87,15 @@ def read_ids(ds, iface: str, split: str, *, take: int | None = None, stall=None,
             it2 = itertools.islice(it, take)
         else:
             it2 = it
-        if stall is None:
-            return [ex_id(e) for e in it2]
         import time
         got = []
         for e in it2:
             got.append(ex_id(e))
-            if len(got) == stall[0]:
+            # the example now belongs to the consumer, which is free to take it apart (pop the label, ...): what it
+            # does to ITS example must never show up in what the stream yields later
+            if isinstance(e, dict):
+                e.clear()
+            if stall is not None and len(got) == stall[0]:
                 time.sleep(stall[1])
         return got
     finally:
